@@ -44,6 +44,9 @@ COMMON_ASSUMPTIONS = [
 ]
 
 PROPERTY_META = {}
+NOT_APPLICABLE = {
+    "C03": "quantifies over three decimal renderings of every float; no renderer exists in the repository to put under contract, and the statement is C01/C02 plus a theorem about decimal printing, not about this code (DESIGN.md section 4/C03)",
+}
 
 # --------------------------------------------------------------------------- C18
 RND = ["rounding::round", "rounding::round_nearest_tie_even", "rounding::round_down",
@@ -71,6 +74,75 @@ for f in ("lower_n_mask", "lower_n_halfway", "nth_bit"):
 
 PROPERTY_META["C18"] = dict(
     level="proof",
+    claim="Proved for all inputs, no bound: loop-free Kani harnesses over the full symbolic domain (mant in [2^63,2^64), exp in [-63,2100]/[-63,320], every shift 0..=64) check the real round/round_nearest_tie_even/round_down/mask functions against a declarative nearest-even / truncation oracle on the packed bits.",
+    note="Trusts Kani/CBMC and that spec_is_rne/spec_is_rtz state IEEE nearest-even/truncation (literal parameters 52/1075/2047, 23/150/255).",
     trusted_base=["spec_is_rne / spec_is_rtz (/verif/spec/verif_spec.rs) are the statement of 'nearest float, ties to even' / 'largest float not above'"],
     assumptions=[],
 )
+
+# --------------------------------------------------------------------------- C17
+C17_DEP = ["C17", "C01", "C02", "C05"]
+FLT = ["num::Float::is_denormal", "num::Float::exponent", "num::Float::mantissa", "num::Float::to_bits", "num::Float::from_bits"]
+K("c17_f64_fields", "num", C17_DEP, "Float helpers on f64, for all 2^64 patterns: to_bits(from_bits(b))==b; is_denormal <=> E==0; finite => mantissa = f (+2^52 if E>0), exponent = max(E,1)-1075", FLT, features=ALL_CFG)
+K("c17_f32_fields", "num", C17_DEP, "Float helpers on f32, for all 2^32 patterns (same contract, 23/150/255)", FLT, features=ALL_CFG)
+K("c17_constants", "num", C17_DEP + ["C18", "C07", "C11"], "every per-format mask/size/bias constant equals its IEEE-754 definition written as a literal", ["num::Float (associated constants for f32, f64)"], features=ALL_CFG)
+K("c17_from_u64_exact_f64", "num", C17_DEP, "from_u64(u) for all u <= 2^53 decodes back to exactly u (conversion exact in the fast-path range)", ["num::Float::from_u64"], features=["default", "compact"])
+K("c17_from_u64_exact_f32", "num", C17_DEP, "from_u64(u) for all u <= 2^24 decodes back to exactly u", ["num::Float::from_u64"], features=["default", "compact"])
+K("c17_pack_f64", "extended_float", C17_DEP + ["C18"], "extended_to_float::<f64>(f, E) has bits E<<52|f for all f<2^52, E in 0..=2047", ["extended_float::extended_to_float"], features=["default", "compact"])
+K("c17_pack_f32", "extended_float", C17_DEP + ["C18"], "extended_to_float::<f32>(f, E) has bits E<<23|f for all f<2^23, E in 0..=255", ["extended_float::extended_to_float"], features=["default", "compact"])
+K("c17_b_bh_f64", "slow", C17_DEP, "slow::b / bh on all finite non-negative f64: b=(m,e), b+h=(2m+1,e-1)", ["slow::b", "slow::bh"], features=["default", "compact"])
+K("c17_b_bh_f32", "slow", C17_DEP, "slow::b / bh on all finite non-negative f32", ["slow::b", "slow::bh"], features=["default", "compact"])
+PROPERTY_META["C17"] = dict(level="proof",
+    claim="Proved for every f32 and f64 bit pattern (full symbolic u32/u64, loop-free): field helpers, bits round trip, packing, b/b+h, and each per-format constant against literals.",
+    note="Trusts CBMC's bit-level model of float<->integer transmutes and conversions.", trusted_base=["CBMC's model of float<->bits transmutes and u64->float conversion (IEEE-754 RNE per CBMC's float bit-blasting)"], assumptions=[])
+
+# --------------------------------------------------------------------------- C14 (tables)
+import tables as _tables
+X("c14_verus_lemire_table", "verus", _tables.make_runner(("lemire",)), ["C14", "C11", "C01", "C02", "C05"],
+  "each of the 651 POWER_OF_FIVE_128 entries (literal extracted from src/table_lemire.rs) equals the 128-bit significand its definition gives: q>=0 top 128 bits of 5^q truncated; -27<=q<0 floor(2^(z+127)/5^-q)+1; q<-27 floor(2^(2z+128)/5^-q)+1 truncated to 128 bits; SMALLEST/LARGEST = -342/308",
+  ["table_lemire::POWER_OF_FIVE_128", "table_lemire::SMALLEST_POWER_OF_FIVE", "table_lemire::LARGEST_POWER_OF_FIVE"])
+X("c14_verus_small_tables", "verus", _tables.make_runner(("small",)), ["C14", "C12", "C01", "C02", "C05"],
+  "SMALL_INT_POW5[i]==5^i (28), SMALL_INT_POW10[i]==10^i (20), LARGE_POW5 limbs == 5^135, LARGE_POW5_STEP==135, float tables' source text is 1e0..1e22 / 1e10 + zero padding",
+  ["table_small::SMALL_INT_POW5", "table_small::SMALL_INT_POW10", "table_small::LARGE_POW5", "table_small::LARGE_POW5_STEP", "table_small::SMALL_F32_POW10", "table_small::SMALL_F64_POW10"])
+X("c14_verus_bellerophon_tables", "verus", _tables.make_runner(("bellerophon",), features="compact"), ["C14", "C11", "C01", "C02", "C05"],
+  "BASE10_SMALL_MANTISSA[i] == 10^i normalised (exact), BASE10_LARGE_MANTISSA[i] == truncated normalised 64-bit significand of 10^(10i-350) (66), BASE10_SMALL_INT_POWERS[i]==10^i, STEP/BIAS/LOG2_MULT/LOG2_SHIFT == 10/350/217706/16",
+  ["table_bellerophon::BASE10_SMALL_MANTISSA", "table_bellerophon::BASE10_LARGE_MANTISSA", "table_bellerophon::BASE10_SMALL_INT_POWERS", "table_bellerophon::BASE10_STEP/BIAS/LOG2_MULT/LOG2_SHIFT"])
+X("c14_verus_log2_formula", "verus", _tables.make_runner(("log2",)), ["C14", "C11", "C01", "C02"],
+  "for every decimal exponent e in [-350, 310]: floor(217706*e / 2^16) == floor(log2(10^e))  (the binary-exponent formula of lemire::power and BellerophonPowers::get_small/get_large)",
+  ["lemire::power (formula constant)", "bellerophon::BellerophonPowers::get_small/get_large (formula constant)"])
+PROPERTY_META["C14"] = dict(
+    level="proof",
+    claim="Every table literal is extracted from /repo/src/table_*.rs on each run and compared with its mathematical definition by Verus assert-by-compute (finite set, fully computed): 651 Lemire significands, small integer powers, 5^135, Bellerophon significands, log2 formula; compiled float/integer powers decoded and checked by loop-free Kani harnesses.",
+    note="std powf exactness (std+compact) is assumed and not registered; regex extraction trusted (entry count must match).",
+    trusted_base=["regex extraction of the literals from src/table_*.rs (count must equal the declared length); Python-computed witnesses are checked by Verus, not trusted",
+                  "std f32::powf / f64::powf exact on 10^0..10^10 / 10^22 in the std+compact configuration (outside the crate; Kani models powf nondeterministically) -- ASSUMED, not registered"],
+    assumptions=["A-STD: std powf(10, i) exact for i <= 10 / 22 (std+compact builds only)"],
+)
+
+# --------------------------------------------------------------------------- C11 (Eisel-Lemire)
+LEM_CFG = ["default", "alloc"]
+C11L = ["C11", "C01", "C02", "C07", "C09", "C04"]
+LEM = ["lemire::compute_float", "lemire::compute_product_approx", "lemire::full_multiplication", "lemire::power",
+       "lemire::compute_error", "lemire::compute_error_scaled", "lemire::lemire"]
+K("c11_power_formula", "lemire", C11L, "power(q) == floor(log2 10^q) + 63 for q in [-342,308], no wrap", ["lemire::power"], features=LEM_CFG)
+K("c11_full_multiplication", "lemire", C11L, "full_multiplication(a,b) == (lo,hi) of the exact 128-bit product, all a,b", ["lemire::full_multiplication"], features=LEM_CFG)
+K("c11_full_multiplication_norm", "lemire", C11L, "a,b >= 2^63 => hi >= 2^62 (range fact assumed of the uninterpreted product)", ["lemire::full_multiplication"], features=LEM_CFG, timeout=600)
+K("c11_full_multiplication_hi_max", "lemire", C11L, "hi < 2^64 - 1 for all a,b (range fact assumed of the uninterpreted product: the carry increment cannot overflow)", ["lemire::full_multiplication"], features=LEM_CFG, timeout=600)
+K("c11_full_multiplication_even", "lemire", C11L, "b even => lo even (range fact assumed of the uninterpreted product)", ["lemire::full_multiplication"], features=LEM_CFG, timeout=600)
+for t in ("f64", "f32"):
+    K("c11_product_approx_" + t, "lemire", C11L, "compute_product_approx(q, w, %s) with full_multiplication uninterpreted: index in range for q in [-342,308]; = first product; + high word of second product with carry exactly when first_hi & mask == mask; hi >= 2^62 for normalised w" % ("55" if t == "f64" else "26"), ["lemire::compute_product_approx"], features=LEM_CFG, zflags=("stubbing",), timeout=600)
+K("c11_product_exact_q0_27", "lemire", C11L, "q in [0,27]: table low word 0, high word even and normalised; compute_product_approx == the single product w*T_hi (uninterpreted, with w*0 == 0); low word even", ["lemire::compute_product_approx", "table_lemire::POWER_OF_FIVE_128"], features=LEM_CFG, zflags=("stubbing",), timeout=600)
+for t, r in (("f64", "q<-342 / q>308"), ("f32", "q<-65 / q>38")):
+    K("c11_compute_float_shape_" + t, "lemire", C11L + ["C08"],
+      "compute_float::<%s>(q,w) for ALL (i32,u64): no panic/overflow/OOB/debug_assert failure; definite => fields in range, finite or +inf, never NaN; w==0 or %s => +0.0 / +inf; declined => normalised, exponent formula, never inside q in [-27,55]" % (t, r),
+      LEM, features=LEM_CFG, timeout=900)
+    K("c11_compute_float_tail_" + t, "lemire", C11L,
+      "compute_float::<%s> with compute_product_approx replaced by a symbolic product P (hi>=2^62): for all q in table range, w!=0: definite => packed result is RNE of some value in [P, P+2^64)*2^(floor(log2 10^q)-lz-63); declined => top 64 bits of P with matching exponent" % t,
+      LEM, features=LEM_CFG, zflags=("stubbing",), timeout=900)
+    K("c11_compute_float_exact_" + t, "lemire", C11L,
+      "compute_float::<%s>, q in [0,27] (exact product, even low word): never declines; packed result == RNE(w*10^q) incl. ties-to-even inside the window (exact ties excluded above the window by lemma L-TIE)" % t,
+      LEM, features=LEM_CFG, zflags=("stubbing",), timeout=900)
+    K("c11_compute_error_" + t, "lemire", C11L, "compute_error::<%s>(q,w): normalised declined estimate with exponent formula, for all q in table range, w != 0" % t, LEM, features=LEM_CFG, timeout=600)
+    K("c11_lemire_truncated_" + t, "lemire", C11L + ["C06"],
+      "lemire::<%s>(num) for all Number (many_digits => mantissa < 10^19), compute_float/compute_error uninterpreted: untruncated or declined first pass == compute_float(q,w); truncated definite => compute_float(q,w) == compute_float(q,w+1) == result; they differ => compute_error(q,w) (declined, normalised); w+1 cannot overflow" % t,
+      LEM, features=LEM_CFG, zflags=("stubbing",), timeout=600)
